@@ -224,6 +224,29 @@ def _typenames(e: ast.AST) -> T.Any:
     return tuple(sorted(out))
 
 
+def resolve_impl(mod: Module, e: ast.AST) -> T.Optional[T.Any]:
+    """The function an operator-table entry denotes: a lambda, or the closure returned by a module-level factory `F(a, ...)` whose body is
+    `def g(holder, other): ...; return g` - instantiated with F's parameters replaced by the call's arguments."""
+    if isinstance(e, ast.Lambda):
+        return e
+    if isinstance(e, ast.Call) and isinstance(e.func, ast.Name) and mod.has_func(e.func.id) and not e.keywords:
+        fac = mod.func(e.func.id)
+        body = [s_ for s_ in fac.body if not (isinstance(s_, ast.Expr) and isinstance(s_.value, ast.Constant))]
+        params = [a.arg for a in fac.args.args]
+        if len(body) == 2 and isinstance(body[0], ast.FunctionDef) and isinstance(body[1], ast.Return) and isinstance(body[1].value, ast.Name) \
+                and body[1].value.id == body[0].name and len(params) == len(e.args) and not fac.args.vararg and not fac.args.kwarg:
+            import copy as _cp
+            from .c01_sym import _Subst
+            g = _cp.deepcopy(body[0])
+            inner = {a.arg for a in g.args.args}
+            mapping = {p: a for p, a in zip(params, e.args) if p not in inner}
+            g.body = [_Subst(mapping).visit(s_) for s_ in g.body]
+            g.decorator_list = []
+            ast.fix_missing_locations(g)
+            return g
+    return None
+
+
 def class_ops(repo: Repo, mod: Module, clsname: str) -> T.Tuple[T.Dict[str, Impl], T.Dict[str, Impl]]:
     """(TRIVIAL_OPERATORS, OPERATORS) as InterpreterObject.__init_subclass__ computes them for `clsname`."""
     trivial: T.Dict[str, Impl] = {}
@@ -246,9 +269,9 @@ def class_ops(repo: Repo, mod: Module, clsname: str) -> T.Tuple[T.Dict[str, Impl
                         opn = _member(k) if k is not None else None
                         if opn is None or not (isinstance(v, ast.Tuple) and len(v.elts) == 2):
                             raise Undecided(f'{c.name}.TRIVIAL_OPERATORS: entry {norm(k)} is not MesonOperator.X: (type, function)')
-                        f = v.elts[1]
-                        if not isinstance(f, ast.Lambda):
-                            raise Undecided(f'{c.name}.TRIVIAL_OPERATORS[{opn}]: implementation is not a lambda')
+                        f = resolve_impl(m, v.elts[1])
+                        if f is None:
+                            raise Undecided(f'{c.name}.TRIVIAL_OPERATORS[{opn}]: implementation is neither a lambda nor the closure of a module-level factory')
                         trivial[opn] = Impl(opn, 'trivial', c.name, m, f, _typenames(v.elts[0]), (opn,))
             elif isinstance(st, ast.FunctionDef):
                 tag = None
@@ -288,7 +311,7 @@ def impl_paths(impl: Impl, handlers: bool = True) -> T.List[T.Tuple[str, T.Any, 
         sps = sym_paths(fn, body=body, handlers=handlers)           # type: ignore[arg-type]
     else:
         ps = [a.arg for a in fn.args.args]
-        sps = sym_paths(fn, handlers=handlers, helpers=private_helpers(impl.mod.cls(impl.owner), stop={'_op_div', '_throw_comp_exception'}))
+        sps = sym_paths(fn, handlers=handlers, helpers=private_helpers(impl.mod.cls(impl.owner), stop={'_op_div', '_throw_comp_exception'}), mod=impl.mod)
     if len(ps) != 2:
         raise Undecided(f'{impl.owner}: implementation of {impl.op} does not take (holder, other)')
     held_chain = f'{ps[0]}.range' if impl.owner == 'RangeHolder' else f'{ps[0]}.held_object'
@@ -332,9 +355,22 @@ def denotation(ctx: RuleCtx, impl: Impl, holder: str) -> T.List[T.Tuple[T.Any, S
     return res
 
 
+OPERATOR_MODULE = {'add': 'Add', 'sub': 'Sub', 'mul': 'Mult', 'floordiv': 'FloorDiv', 'truediv': 'Div', 'mod': 'Mod', 'eq': 'Eq', 'ne': 'NotEq', 'lt': 'Lt', 'le': 'LtE',
+                   'gt': 'Gt', 'ge': 'GtE', 'neg': 'USub', 'not_': 'Not', 'pow': 'Pow', 'and_': 'BitAnd', 'or_': 'BitOr'}
+
+
 def _strip_calls(t: T.Any) -> T.Any:
-    """Forget call sequence numbers."""
+    """Forget call sequence numbers; functions of the stdlib `operator` module are the operators they implement."""
     if isinstance(t, tuple):
+        if is_call(t) and t[3] is None and t[2].startswith('operator.') and not t[5]:
+            fn = t[2].split('.', 1)[1]
+            args = tuple(_strip_calls(a) for a in t[4])
+            if fn in OPERATOR_MODULE and len(args) in (1, 2):
+                return ('op', OPERATOR_MODULE[fn], args)
+            if fn == 'contains' and len(args) == 2:
+                return ('op', 'In', (args[1], args[0]))
+            if fn == 'getitem' and len(args) == 2:
+                return ('sub', args[0], args[1])
         if is_call(t):
             return ('call', t[2], _strip_calls(t[3]), tuple(_strip_calls(a) for a in t[4]), tuple((k, _strip_calls(v)) for k, v in t[5]))
         return tuple(_strip_calls(x) for x in t)
@@ -691,7 +727,7 @@ TYPING: T.Dict[str, T.Dict[str, T.Any]] = {
     'BooleanHolder': {'BOOL': None, 'NOT': None, 'EQUALS': ('bool',), 'NOT_EQUALS': ('bool',)},
     'ArrayHolder': {'EQUALS': ('list',), 'NOT_EQUALS': ('list',), 'IN': ('object',), 'NOT_IN': ('object',), 'PLUS': ('object',), 'INDEX': ('int',)},
     'DictHolder': {'PLUS': ('dict',), 'EQUALS': ('dict',), 'NOT_EQUALS': ('dict',), 'IN': ('str',), 'NOT_IN': ('str',), 'INDEX': ('str',)},
-    'RangeHolder': {'INDEX': 'unguarded', 'EQUALS': 'unguarded', 'NOT_EQUALS': 'unguarded'},
+    'RangeHolder': {'INDEX': ('int',), 'EQUALS': 'unguarded', 'NOT_EQUALS': 'unguarded'},      # range()[i]: i is an int like for arrays and strings (an ill-typed index is InvalidArguments, not a Python TypeError)
 }
 
 
@@ -735,6 +771,10 @@ def r3(ctx: RuleCtx) -> None:
         if impl is None or isinstance(impl.fn, ast.Lambda):
             ctx.violation(im, 'IntegerHolder', f'IntegerHolder {opn} without zero test', f'integer {opn} is not a method with a zero test', impl.fn if impl else im.cls('IntegerHolder'))
             continue
+        known_deco = {'typed_operator', 'operator', 'FeatureNew', 'FeatureDeprecated', 'FeatureBroken'}
+        foreign = [norm(d) for d in impl.fn.decorator_list if (attr_chain(d.func if isinstance(d, ast.Call) else d) or '').split('.')[-1] not in known_deco]
+        if foreign:
+            raise Undecided(f'IntegerHolder {opn}: decorated with {foreign}, which may carry the zero test')
         tab = tables.extract(impl.fn, name=f'IntegerHolder {opn}')
         zero = Atom('cmp', ('eq', 'ARG1', '0'))
         for r in tab.rows:
